@@ -4,7 +4,7 @@ from geomgen import *
 
 ID = "C08"
 THEOREM_MODULE = "SimVerif.Props.C08"
-THEOREM_MODULES = ["SimVerif.Props.C08", "SimVerif.Props.C08b", "SimVerif.Props.C08c", "SimVerif.Tie.Radius", "SimVerif.Tie.Inter"]
+THEOREM_MODULES = ["SimVerif.Props.C08", "SimVerif.Props.C08b", "SimVerif.Props.C08c", "SimVerif.Tie.Radius", "SimVerif.Tie.Inter", "SimVerif.Tie.Clip"]
 NONTRIVIAL_FLAGS = {"overlap", "rotated", "nested", "identical", "near-disjoint", "axis-aligned"}
 RULE = ("`geom inter u1 u2` (10% as `interstale`: both boxes carry a vertex cache generated under another geometry): pairs in general position, overlapping, nested, identical, touching (shared edge/corner, exact coordinates), edge-sharing in a rotated frame, far apart, "
         "large coordinates, tiny boxes; angles None, 0, k*pi/2, |angle|>2pi; the executor evaluates too_far, intersection and IoU in both argument orders and dist_in_2r; "
